@@ -587,7 +587,15 @@ func (vr *variableResolver) resolve(ctx *ExecutionContext) (*Value, error) {
 				}
 			}
 
-			if rv.Type() != typeOfValuePtr {
+			if pv, ok := rv.Interface().(*Value); ok && rv.Type() != typeOfValuePtr {
+				// a *Value returned through an interface-typed result
+				if pv != nil {
+					current = pv.val
+					isSafe = pv.safe
+				} else {
+					current = reflect.Value{}
+				}
+			} else if rv.Type() != typeOfValuePtr {
 				current = reflect.ValueOf(rv.Interface())
 			} else {
 				// Return the function call value (a nil *Value is the empty value)
